@@ -161,6 +161,7 @@ type handlerPair struct {
 }
 
 type streamConvertPair struct {
+	elemType      reflect.Type // the element type the pair converts
 	concatStream  func(sr streamReader) (any, error)
 	restoreStream func(any) (streamReader, error)
 }
@@ -168,6 +169,7 @@ type streamConvertPair struct {
 func defaultStreamConvertPair[T any]() streamConvertPair {
 	var t T
 	return streamConvertPair{
+		elemType: generic.TypeOf[T](),
 		concatStream: func(sr streamReader) (any, error) {
 			tsr, ok := unpackStreamReader[T](sr)
 			if !ok {
